@@ -3,6 +3,7 @@
 cd "$(dirname "$0")/.."
 ids="$@"
 [ -z "$ids" ] && ids=$(python3 -c "import json; print(' '.join(c['property_id'] for c in json.load(open('MANIFEST.json'))['checks']))")
+mkdir -p out
 for p in $ids; do
   t0=$(date +%s)
   ./check $p thorough > out/thorough-$p.log 2>&1; rc=$?
